@@ -76,6 +76,13 @@ static ssize_t mf_read(void *c, char *buf, size_t n)
 static ssize_t mf_write(void *c, const char *buf, size_t n)
 {
   memfile *m = (memfile *)c;
+  if (m->pos + n > (64u << 20))
+  {
+    // a write of more than 64 MiB to the output of a small test file: size underflow in export_buffer
+    if (res)
+      fflush(res);
+    _exit(45);
+  }
   if (m->pos + n > m->data.size())
     m->data.resize(m->pos + n, 0);
   memcpy(m->data.data() + m->pos, buf, n);
@@ -217,7 +224,7 @@ static std::string op_enc(const std::vector<std::string> &a)
   bytes after = read_file(inpath);
   unlink(inpath.c_str());
   std::ostringstream o;
-  o << (r ? "OK " : "FAILED ") << hex(out.data) << " | wlog=" << wlog_str(out) << " inmod=" << (after == plain ? 0 : 1);
+  o << (r ? "OK " : "FAILED ") << hex(out.data) << " | wlog=" << wlog_str(out) << " inmod=" << (after == plain ? 0 : 1) << " wdata=" << hex(out.wbytes);
   return o.str();
 }
 // dec T KEY FILE   |  ver T KEY FILE
@@ -371,6 +378,8 @@ static void isolated(const std::string &id, const std::vector<std::vector<std::s
     fprintf(res, "%s DEADLOCK\n", id.c_str());
   else if (WEXITSTATUS(status) == 43)
     fprintf(res, "%s LIVELOCK\n", id.c_str());
+  else if (WEXITSTATUS(status) == 45)
+    fprintf(res, "%s CRASH oversize-write\n", id.c_str());
   else if (WEXITSTATUS(status) == 44)
     fprintf(res, "%s REPLAY-DIVERGED\n", id.c_str());
   else if (WEXITSTATUS(status) != 0)
